@@ -669,6 +669,7 @@ theorem benignP_startTop (s : St) (t : Nat) (op : TopOp) : BenignP s (startTop s
     split
     · exact (he.trans (same_dropHandle _ _).benignS).toP
     · exact he.toP
+  case sigThreads a n => exact benignP_push he _ (inert_one rfl)
 
 theorem ctl_tick (p : Prog) (h : Hist) {s s' : St} (hc : Ctl s) (ht : tick p h s = some s') : Ctl s' := by
   unfold tick at ht
